@@ -41,6 +41,8 @@ FLOORS = {
                                                    "equiv.paths_checked_nontrivial": 40000,
                                                    "c06.exhaustive_histories": 10000}},
 }
+# W5: the repository's own test suite runs once under these ambient monitors (thorough tier)
+W5_MONITORS = ['equiv']
 CASE_TIMEOUT = {"quick": 30, "thorough": 60}
 SIZES = {"quick": 4000, "thorough": 60000}
 EXHAUSTIVE = {"quick": False, "thorough": False}
